@@ -52,11 +52,19 @@ def gen2(n):
     yield r
 
 def gen3(n):
-    # yields that are the right-hand side of chained and unpacking assignments
+    # yields that are the right-hand side of chained, unpacking and annotated assignments, and a yield
+    # inside an except clause that binds no name
     g(400)
     r = s = yield 0
     g(401)
-    t, u = (yield 1), 0
+    try:
+        t, u = (yield 1), 0
+        v: int = yield 2
+        if v is None:
+            raise Retry()  # the usual way into the handler: raised by the running generator itself
+    except Retry:
+        g(403)
+        yield 3
     g(402)
 
 class Retry(Exception):
@@ -103,6 +111,8 @@ KIND_OVERLAY = {"gen2": "OG2", "gen3": "OG3", "gen4": "OG4", "gen5": "OG5"}
 FUNCS = ("g", "gen", "gen2", "gen3", "gen4", "gen5", "sub", "drv")
 # what a generator kind does with a Retry exception thrown into it while it is suspended
 HANDLES_THROW = {"gen4"}
+# gen3 handles one thrown Retry when it is suspended at its second or third yield (inside the try)
+YIELDS = {"gen3": 3}
 
 
 _NS = [None]
@@ -286,14 +296,23 @@ class System:
             return (entered, tuple(gens), ncalls), ("step", op[0])
         if op[0] == "next":
             n = gens[op[1]]
-            limit = 2
+            limit = YIELDS.get(self.kinds[op[1]], 2)
+            if n == "handler":
+                # suspended at the yield inside the except clause: the next step ends the generator
+                gens[op[1]] = "none"
+                return (entered, tuple(gens), ncalls), ("step", op[0])
+            if self.kinds[op[1]] == "gen3" and n == 3:
+                gens[op[1]] = "handler"
+                return (entered, tuple(gens), ncalls), ("step", op[0])
             if n >= limit:
                 gens[op[1]] = "none"
             else:
                 gens[op[1]] = n + 1
             return (entered, tuple(gens), ncalls), ("step", op[0])
         if op[0] == "throw":
-            if self.kinds[op[1]] not in HANDLES_THROW:
+            if self.kinds[op[1]] == "gen3" and gens[op[1]] in (2, 3):
+                gens[op[1]] = "handler"
+            elif self.kinds[op[1]] not in HANDLES_THROW:
                 gens[op[1]] = "none"  # the exception ends the generator and comes back to the driver
             return (entered, tuple(gens), ncalls), ("step", op[0])
         if op[0] in ("close", "drop"):
